@@ -91,6 +91,12 @@ Ctxs(t) ==
                           <<"arith-left", Cmp("gt", Bin("add", H, DULit), d)>> }
           [] t = "DU" -> { <<"arith-right", Cmp("gt", Bin("add", d, H), d)>>, <<"fn-arg-totalseconds", Cmp("gt", C1("totalseconds", H), IntL(1))>> }
           [] t = "L" -> { <<"fn-arg-length", Cmp("eq", C1("length", H), IntL(1))>>, <<"fn-arg-hassubset", C2("hassubset", l, H)>>, <<"in-rhs", Cmp("in", n, H)>> }
+          \* the null literal outside `eq null` / `ne null`: list member, left of `in`, function argument, arithmetic operand, lambda body
+          [] t = "N" -> { <<"list-element", Cmp("in", n, Lst(<<IntL(1), H>>))>>, <<"in-left", Cmp("in", H, Lst(<<n, IntL(1)>>))>>,
+                          <<"not-in-list", Un("not", Cmp("in", s, Lst(<<SLit, H>>)))>>,
+                          <<"fn-arg-tolower", Cmp("eq", C1("tolower", H), StrL(<<97>>))>>, <<"fn-arg-concat", Cmp("eq", C2("concat", s, H), StrL(<<97>>))>>,
+                          <<"arith-right", Cmp("eq", Bin("add", n, H), IntL(1))>>, <<"cmp-order", Cmp("gt", n, H)>>,
+                          <<"lambda-list", Coll(Id0("cs"), "any", Lam(Id0("y"), Cmp("in", P("y", <<"n">>), Lst(<<IntL(1), H>>))))>> }
           [] t = "GEO" -> { <<"fn-arg-geo", Cmp("lt", G("distance", <<g, H>>), IntL(1))>>, <<"fn-arg-intersects", G("intersects", <<g, H>>)>> }
           [] OTHER -> {})
 
